@@ -14,6 +14,13 @@ G  Gen_LuaTimeout: TLC enumerates the programs with the demanded outcome class a
    process with a hard kill; observed class {aborted in-band within the bound, returned,
    error element, hung} is compared; then benign invocations on the SAME context are
    compared with a fresh context.  Histories of several programs on one context likewise.
+   Families of the grammar: core wrappers (protected calls, catch-and-continue loops,
+   coroutines, hook control, nested invocations); WHERE the endless code sits relative to a
+   protected call (message handler of an xpcall entered for an ordinary error / for the time
+   limit error inside the count hook / for the time limit error handed on by a coroutine's
+   resumer; metamethods; code _lua_invoke runs outside its pcall; resumer of a suspended
+   coroutine); the sandbox bookkeeping helpers of the LIVE module environment called with
+   nil / false / a table / a number before the loop.
 V  the rendered programs report what happens inside (wrapper entered, error caught by the
    module's own protected call, result) through a recording page-store call; the event
    sequence of every run is validated by TLC (Trace_LuaTimeout) against the machine: it
@@ -761,6 +768,8 @@ def _run(o, thorough, hd: Path) -> int:
         for d in ("Pcall", "Co", "HookCtl", "Nested", "InBand", "Xh", "EnvNil"):
             r = tlc("MC_LuaTimeout", f"MC_LuaTimeout_dev{d}_T.cfg", workers=16, timeout=1500)
             o.add_tlc("MC_dev" + d, r)
+        for k in ("ideal", "asis"):   # every kind the machine distinguishes (KindsMC) at depth 2
+            o.add_tlc(f"MC_{k}_W", tlc("MC_LuaTimeout", f"MC_LuaTimeout_{k}_W.cfg", workers=16, timeout=1500))
     never = [a for a in ('Invoke', 'Enter', 'Step', 'PFStep', 'HookFires', 'Tick', 'Unwind', 'Ret') if not o.extra["action_coverage"].get(a)]
     if never:
         raise common.TLCError(f"actions never taken in the model-checking runs (vacuity): {never}")
